@@ -118,7 +118,7 @@ ADDENDA = {
  "C03": " Seed documents with two paths over one link in opposite directions and asymmetric CIGARs, link written in either form. Selected seeds also at validation levels 0 and 3, one seed with valid non-canonical lazily parsed tags on lines queued while the version is unknown. The lines of the GFA2 seeds also arrive, in all orders, in a Gfa produced by to_gfa2().",
  "C04": " The `$` rule with the judged segment on either side of the edge and the other side with / without a sequence. The verdict of every document-table entry must be the same through Gfa(list), Gfa(string) and Gfa.from_file; lines ending in blanks / tabs.",
  "C05": " Also from the fully loaded universes (`@full`), with the operations `nameit` (give an unnamed line an identifier) and delete of the ID tag of a link / containment. Operations addclone (clone of a segment added as Line object), readd (a removed Line object added again), set(tag, None); the core specs also from their loaded universe.",
- "C06": " Path cases also with the path arriving before its links and together with the path walking the same links backwards. Header tag sets and comments in both directions (to_gfaN and to_gfaN_s); line-level to_gfa2_s of paths before / after their unnamed links, assembled and validated. A path moved from one Gfa to another is converted as a line of the Gfa it is in (differential against the same text parsed afresh).",
+ "C06": " Path cases also with the path arriving before its links and together with the path walking the same links backwards. Header tag sets and comments in both directions (to_gfaN and to_gfaN_s); line-level to_gfa2_s of paths before / after their unnamed links, assembled and validated. A path moved from one Gfa to another is converted as a line of the Gfa it is in (differential against the same text parsed afresh). Ordered groups that walk over a containment or an internal alignment: dropped by the graph conversion, refused line by line, never written as a P line.",
  "C07": " Two-step API programs: a refused call (caught), then ordinary calls on the same objects. Less-used queries and options taking a name (is_cut_segment, segment_connected_component, linear_path, multiply, merge with merged_name), None assigned to every field name, programs on a connected fragment, files read with progress logging (part = 0, 0.1, 0.5, 1, 2), one extreme field at a time, attribute-like tag names.",
  "C08": " Also from the fully loaded universes (`@full`); failure alphabet includes lines refused after their first side was resolved (second side names a non-segment; first side known only from a group). header.add with another datatype / an invalid value; edits of the external / sid field of a connected fragment; refused E / G lines named like an identifier a group mentions in advance. H lines that fix the version and cannot be merged.",
  "C09": " Also from the fully loaded universes; a path over an ID-tagged link (placeholder link replaced by a link whose ID may be in use); delete of the ID tag. An accepted operation that the model leaves open must still leave a coherent namespace (model-free check, also for replaced lines); `*` as value of the ID tag; a further line of a group that another group lists. Also searched from a state in which a placeholder segment survives only because a group lists the identifier.",
